@@ -1,6 +1,7 @@
 """C07 — groups complete exactly when their count returns to zero."""
 import os, re, subprocess
 from common import sh
+from tracecheck import run_traces
 from props.C03 import replay
 
 META = {
@@ -69,5 +70,7 @@ def run(ctx):
                 ctx.broken("L-trace: dg_state transition not explained by GroupP.step: " + b.split(": E ", 1)[1][:200])
     if not [v for v in ctx.violations] and not ctx.proof_broken:
         for p in paths: os.remove(p)
-    ctx.cov["rule"] = ("tr_group storms (random enter/leave incl. nested, notify, timed and polling waits, with and without dispatch_group_async, 2-16 threads, perturbed at the group's "
+    # "returns non-zero only after the full timeout has elapsed": timed waits on the three clocks while signals interrupt the waiter
+    run_traces(ctx, "c12_waits", [[ctx.seed * 10 + 7]], None, None, "L-api timed waits under signals", "waits", timeout=120)
+    ctx.cov["rule"] = ("c12_waits: timed dispatch_group_wait until past times and 40 ms ahead on the three clocks, signals at the waiter; tr_group storms (random enter/leave incl. nested, notify, timed and polling waits, with and without dispatch_group_async, 2-16 threads, perturbed at the group's "
                        "atomic sites), the quiet-registration scenario over hundreds of generations, and the forced F9 schedule. distinct_nontrivial = dg_state transitions explained by the model")
